@@ -1,6 +1,7 @@
 """C03 - every duplicate among the scanned files is reported, exactly once."""
 import re
 from . import register
+from .common import rehash_core, rehash_core_path, rehash_rx
 from ..analysis import (backslice, aggregates, agg_field, switch_targets_bool, count_nots, closure_creation, forward_locals,
                         direct_field, direct_def, base_named_local, switch_on_result_of, dominated_region)
 from ..facts import op_local, op_place, op_const
@@ -20,6 +21,7 @@ DOC = {
         'C03.R5': 'hashing task: send only on Some(hash), for every remaining file of the inode group; a path that cannot be hashed is dropped alone and the next path of the inode is tried; when none can be hashed only that inode group is dropped',
         'C03.R6': 'deduplicate: repeated entries collapsed with unique_by(path hash) (global), never an adjacent-only dedup; entries bucketed by location are all re-emitted',
         'C03.R7': 'a FileInfo field changed by the hash function and used in the group key is propagated to every path of the inode (re-evaluates C01.R6)',
+        'C03.R13': 'duplicates are not missed because a hard link lent them the transform output of another path (re-evaluates C01.R14)',
         'C03.R12': 'a duplicate pair is not dropped by the replication filter because its two files are mistaken for one: file identity is the whole FileId wherever it is used (re-evaluates C01.R11)',
         'C03.R11': 'a readable file is never dropped silently by the transform stage: the only error passed over without a warning is NotFound for a file that is really gone (re-evaluates C15.R5)',
         'C03.R10': 'a stage never joins groups that an earlier stage has separated: the key the suffix stage regroups by identifies the pair (prefix hash, suffix hash) (re-evaluates C01.R3); with --skip-content-hash the merged group would be final, and under --unique / --rf-under both classes would vanish from the report',
@@ -45,6 +47,7 @@ def run(ctx):
     from . import c15
     reevaluate(ctx, 'C03.R11', c15.r5, ctx.lib)
     reevaluate(ctx, 'C03.R12', c01.r11)
+    reevaluate(ctx, 'C03.R13', c01.r14)
     from .common import run_mandatory
     run_mandatory(ctx, 'C03')
 
@@ -92,7 +95,7 @@ def r23(ctx):
 def r4(ctx):
     rule = 'C03.R4'
     lib = ctx.lib
-    b = ctx.need_body(rule, 'group::rehash')
+    b = ctx.need_body(rule, rehash_core_path(lib))
     if b is None:
         return
     part = b.calls(r'Iterator::partition$')
@@ -141,7 +144,7 @@ def r5(ctx):
     rule = 'C03.R5'
     lib = ctx.lib
     task = None
-    for cp in lib.closures_of('group::rehash'):
+    for cp in lib.closures_of(rehash_core_path(lib)):
         cb = lib.body(cp)
         if cb.calls(r'Sender<.*>::send$|Sender::<T>::send$'):
             task = cb
